@@ -69,7 +69,8 @@ Report(kind, what) == PrintT("REPORT " \o kind \o " " \o ToString(l) \o " " \o T
 TSearchRet ==
   /\ Is("search.ret") /\ Keep /\ Ev.ok /\ Done
   /\ \E vis \in Admissible :
-       /\ SetOf(Ev.resV) = KNearest(vis, Ev.k)
+       \* a distance threshold keeps the documents 1..cut (document i sits at distance i*i from the query); cut = 0: no threshold
+       /\ SetOf(Ev.resV) = KNearest(IF Ev.cut > 0 THEN {x \in vis : x <= Ev.cut} ELSE vis, Ev.k)
        /\ (Ev.tm => (("t" \in Comps => SetOf(Ev.resT) = vis) /\ ("m" \in Comps => SetOf(Ev.resM) = vis)))
        \* property monitors on the real answer
        /\ ((~(expect \subseteq vis) /\ ~(saved # <<>> /\ saved[2].kind # "none")) =>
